@@ -281,7 +281,7 @@ func c08Cases(tier string, seed uint64) []fw.Case {
 	n := 320
 	variants := []string{"plain"}
 	if tier == "thorough" {
-		n = 1500
+		n = 12000
 		variants = []string{"plain", "race"}
 	}
 	var cs []fw.Case
